@@ -12,6 +12,7 @@ import (
 	opchildtypes "github.com/initia-labs/OPinit/x/opchild/types"
 	ophosttypes "github.com/initia-labs/OPinit/x/ophost/types"
 
+	"verifharness/mon"
 	"verifharness/ref"
 	"verifharness/sim"
 )
@@ -64,6 +65,8 @@ type L2EnvOpts struct {
 	OracleEnabled bool
 	CheckTx       bool
 	FeeWhitelist  []string
+	// NextL1Sequence, when > 0, is the genesis value of the next expected L1 deposit sequence
+	NextL1Sequence uint64
 }
 
 func newL2Env(o L2EnvOpts) *L2Env {
@@ -105,6 +108,9 @@ func newL2EnvGen(o L2EnvOpts, gvals []opchildtypes.Validator) (e *L2Env, err err
 	params := opchildtypes.NewParams(e.Admin.String(), []string{e.Executors[0].String(), e.Executors[1].String()}, maxV, o.Historical, o.MinGasPrices, o.FeeWhitelist, hmg)
 	gs := opchildtypes.NewGenesisState(params, gvals, nil)
 	gs.NextL1Sequence, gs.NextL2Sequence = 1, 1
+	if o.NextL1Sequence > 0 {
+		gs.NextL1Sequence = o.NextL1Sequence // a chain whose genesis was exported after that many deposits
+	}
 	if verr := opchildtypes.ValidateGenesis(gs, e.L2.AK.AddressCodec()); verr != nil {
 		return nil, fmt.Errorf("%w: %v", ErrGenesisRefused, verr)
 	}
@@ -177,4 +183,35 @@ func (e *L2Env) NextL2Seq() uint64 {
 		panic(err)
 	}
 	return r.NextL2Sequence
+}
+
+// DeliverWithBankFault delivers msg with an error or a panic injected at the opchild handler's MintCoins or
+// SendCoinsFromModuleToAccount call (a panicking send restriction, recipient-side logic). The call index is found by a
+// recording run on a discarded branch; shadow activity is suspended meanwhile (foreign calls would shift the indices).
+// Returns the result and a description of the fault that fired ("" if none did).
+func (e *L2Env) DeliverWithBankFault(rng *mon.Rand, gas uint64, msg sdk.Msg) (sim.Result, string) {
+	l2 := e.L2
+	shadow, spec := l2.Shadow, l2.Speculate
+	l2.Shadow, l2.Speculate = nil, false
+	defer func() { l2.Shadow, l2.Speculate = shadow, spec }()
+	rec := l2.Branch()
+	l2.F.Arm(-1, sim.FaultError)
+	rec.DeliverGas(gas, msg)
+	calls := append([]sim.Call(nil), l2.F.Calls...)
+	l2.F.Disarm()
+	want := mon.Pick(rng, []string{"MintCoins", "SendCoinsFromModuleToAccount"})
+	kind := mon.Pick(rng, []sim.FaultKind{sim.FaultError, sim.FaultPanic})
+	for i, c := range calls {
+		if c.Name == want && c.Layer == "opchild.bank" {
+			l2.F.Arm(i, kind)
+			res := l2.DeliverGas(gas, msg)
+			fired := l2.F.Fired
+			l2.F.Disarm()
+			if fired {
+				return res, fmt.Sprintf("%s at %s", kind, want)
+			}
+			return res, ""
+		}
+	}
+	return l2.DeliverGas(gas, msg), ""
 }
